@@ -1,9 +1,9 @@
 package main
 
 import (
-	"sort"
 	"fmt"
 	"math/big"
+	"sort"
 	"strings"
 
 	"github.com/zclconf/go-cty/cty"
